@@ -744,7 +744,6 @@ func (c RetCase) HasCaseGuard(pred func(Guard) bool) bool {
 	return false
 }
 
-
 // constBool: the value of a condition term that is a compile-time constant as far as the analysis can see: true/false
 // literals, a boolean field of a zero-valued local struct (an options parameter that every caller leaves at its zero
 // value and that was turned into a local), and negations of these.
